@@ -126,6 +126,13 @@ def _(E, m, a, c0):
             out.append(x.fields[0])
         return opt(Seq(out))
     return Seq(xs)
+@pfirst(r'<(?:&mut )?(?:impl Iterator<.*>|I|It|T) as Iterator>::next')
+def _(E, m, a, c0):
+    it = E.deref(a[0])
+    if not (isinstance(it, Adt) and it.ty == 'Iter'): return NotImplemented       # a crate iterator: dynamic dispatch handles it
+    items, pos = it.fields[0], it.fields[1]
+    if pos >= len(items.fields): return opt()
+    E.wr(a[0], Adt('Iter', None, [items, pos + 1, it.fields[2]])); return opt(items.fields[pos])
 @pfirst(r'<(?:std::iter::|core::iter::)?(?:adapters::\w+::)?(Rev|Map|Filter|FilterMap|Zip|Enumerate|Skip|Take|Chain|Cloned|Copied|StepBy|TakeWhile|SkipWhile)<.*> as (?:Iterator|IntoIterator)>::(next|into_iter)')
 def _(E, m, a, c0):
     if m.group(2) == 'into_iter': return a[0]
